@@ -11,4 +11,9 @@ TEXTS = {
   "note": "Trusted base: the flat model in c15.go. Writing at a non-end position, reading past the written part of a partially filled written packet, and reuse of positions after a discard are not defined by a FIFO model and not generated.",
   "technique": "runtime monitoring: executable reference model compared online, exhaustive short histories + seeded random histories",
  },
+ "C02": {
+  "text": "Metamorphic runtime oracle on the real reader and parser: for a catalogue of 24 responses (every server package kind the client handles, 33 data types, narrow and wide formats) every single cut, pairs of cuts (all in thorough), all 2^(n-1) cut sets of streams of at most 14 bytes, one-byte bodies, seeded k-cut sets, header-only packets (inserted and as EOM carrier), and read partitions (one byte per read, every split inside every packet header, body splits, coalesced packets, seeded chunkings) must deliver exactly the canonical package dumps of the one-packet-one-read delivery with no error surfacing. Exhaustive for 1 cut and for short streams, sampled beyond; thorough adds a -race leg for schedule diversity. Held-on-observed.",
+  "note": "Trusted base: harness/srv encoder, canon dump, xport transport. Equality is on reflection dumps of the delivered packages. The reference delivery must be clean or the response is discarded and counted.",
+  "technique": "runtime monitoring: metamorphic differential delivery through the real reader goroutine and Channel.WritePacket, exhaustive cut enumeration + seeded partitions",
+ },
 }
